@@ -19,7 +19,7 @@ for pid in all_ids:
             'evidence_file': f'/verif/evidence/{pid}.json',
             'replay_cmd_template': './check replay {path}',
             'engine': 'gocv',
-            'level_claimed': {'category': p.get('level', 'proof'), 'text': p['level_text'], 'design_ref': p.get('design_ref', 'DESIGN.md §3 ' + pid)},
+            'level_claimed': {'category': p.get('level', 'proof'), 'text': p['level_text'], 'design_ref': p.get('design_ref', 'DESIGN.md appendix A, ' + pid)},
             'level_note': p['level_note'],
             'technique': p.get('technique', 'contract-based deductive verification: VCs generated from the real Go source (go/ast+go/types) against //@ contracts, discharged by z3/cvc5'),
         })
